@@ -588,6 +588,16 @@ func (b *Bridge) after(in *hub.Instance, g *bridgeGhost, op engine.Op, pre *view
 		}
 	}
 
+	// ---- C01: a cold storage proposal schedules a move between two custody locations; it mints exactly what it schedules
+	// (and burns it into the transfer), so nothing stays behind on the module's accounts
+	if op.Kind == "ColdStorage" && b.Cfg.Prop == "C01" {
+		for _, acc := range []string{"temp", "module"} {
+			if !preBal[acc].IsEqual(postBal[acc]) {
+				st.Violate("C01", "cold_storage_proposal_minted_more_than_it_scheduled", "ColdStorageTransfer", "proposal %s: the %s account went from %s to %s", op, acc, preBal[acc], postBal[acc])
+			}
+		}
+	}
+
 	// ---- C01 solvency
 	b.solvency(in, g, op, pre, post, preBal, postBal, st, endBlock)
 }
